@@ -749,7 +749,7 @@ def main():
                 extra = " unsatisfied witnesses: " + "; ".join(str(c.get("description")) for c in j.cover_bad)
             print("INCONCLUSIVE: harness %s ended as %s (log: %s)%s" % (j.h["name"], j.status, j.log, extra))
     # native replays, up to four side by side (each lane has its own scratch crate and target dirs)
-    LANES = 4
+    LANES = 2  # a playback run (CBMC --json-ui with traces) can take 30 GB
     results = {}
     lane_lock = threading.Lock()
     free_lanes = list(range(LANES))
